@@ -78,8 +78,8 @@ func init() {
 		}
 		event("Exec:ok:%s", q)
 		rt := fr.i.prog.ImportedPackage(strings.TrimSuffix(rtPkg, "."))
-		n := symv{t: X.fresh("rowsAffected", BV(64)), k: types.Int64}
-		X.addPC(BVCmp("bvsge", n.t, BVConst(0, 64)))
+		n := mkScalar(X.pinOr(X.fresh("rowsAffected", BV(64))), types.Int64)
+		X.addPC(BVCmp("bvsge", termOf(n), BVConst(0, 64)))
 		return tuple{iface{t: rt.Type("SQLResult").Type(), v: structure{n}}, iface{}}
 	}
 	symExternals["(*database/sql.Conn).ExecContext"] = exec
@@ -107,7 +107,7 @@ func init() {
 			switch b := pt.Elem().Underlying().(type) {
 			case *types.Basic:
 				if b.Info()&types.IsInteger != 0 {
-					*cell = symv{t: X.fresh("scan", BV(kindWidth(b.Kind()))), k: b.Kind()}
+					*cell = mkScalar(X.pinOr(X.fresh("scan", BV(kindWidth(b.Kind())))), b.Kind())
 					continue
 				}
 			}
